@@ -140,7 +140,10 @@ func c10scenarios(pkg string) []errScenario {
 		}, Status: 400, Fields: []string{"name", "qty"}},
 		{Source: "handler-plain-error", Verb: "POST", Target: "/err/do", Msg: validDo, Script: map[string]any{"err": map[string]any{"kind": "plain", "message": "user not found: 123 ü"}}, Status: 500, Message: "user not found: 123 ü", Handler: true},
 		{Source: "handler-sebuf-error", Verb: "POST", Target: "/err/do", Msg: validDo, Script: map[string]any{"err": map[string]any{"kind": "sebuf", "message": "db down"}}, Status: 500, Message: "db down", Handler: true},
-		{Source: "handler-wrapped-sebuf-error", Verb: "POST", Target: "/err/do", Msg: validDo, Script: map[string]any{"err": map[string]any{"kind": "wrapped-sebuf", "message": "inner msg"}}, Status: 500, Message: "~inner msg", Handler: true},
+		{Source: "handler-wrapped-sebuf-error", Verb: "POST", Target: "/err/do", Msg: validDo, Script: map[string]any{"err": map[string]any{"kind": "wrapped-sebuf", "message": "inner msg"}}, Status: 500, Message: "~wrapped: inner msg", Handler: true},
+		// a handler error that WRAPS a ValidationError is a handler error (the handler did not reject the
+		// request, something it called did): 500 with the error's own message, not a 400 with violations
+		{Source: "handler-wrapped-validation-error", Verb: "POST", Target: "/err/do", Msg: validDo, Script: map[string]any{"err": map[string]any{"kind": "wrapped-validation", "wire": b64(vew)}}, Status: 500, Message: "~wrapped: validation error", Handler: true},
 		{Source: "handler-validation-error", Verb: "POST", Target: "/err/do", Msg: validDo, Script: map[string]any{"err": map[string]any{"kind": "validation", "wire": b64(vew)}}, Status: 400, Fields: []string{"custom.path", "other"}, Handler: true},
 		{Source: "handler-custom-error-message", Verb: "POST", Target: "/err/do", Msg: validDo, Script: map[string]any{"err": map[string]any{"kind": "custom", "type": pkg + ".LookupError"}}, Status: 500, Custom: true, Handler: true},
 		{Source: "handler-wrapped-custom-error-message", Verb: "POST", Target: "/err/do", Msg: validDo, Script: map[string]any{"err": map[string]any{"kind": "wrapped-custom", "type": pkg + ".LookupError"}}, Status: 500, Custom: true, Either: true, Handler: true},
@@ -703,7 +706,7 @@ func c10judge(c *Ctx, caseID string, sc errScenario, hook string, isProto bool, 
 			return
 		}
 		if strings.HasPrefix(sc.Message, "~") {
-			// wrapped error: the body carries the error's message; inner or full text both qualify
+			// wrapped error: the body carries the handler error's own message (wrapping text included)
 			if !strings.Contains(e.GetMessage(), strings.TrimPrefix(sc.Message, "~")) {
 				rp["message"] = e.GetMessage()
 				c.R.Violate(caseID, "error-message-differs", "", rp)
